@@ -9,11 +9,32 @@ var envRedirects = map[string]string{
 	"os.Stat":                            "vxstub_os_Stat",
 	"path/filepath.Abs":                  "vxstub_filepath_Abs",
 	"io/ioutil.ReadFile":                 "vxstub_ioutil_ReadFile",
-	"io/ioutil.ReadAll":                  "vxstub_ioutil_ReadAll",
 	"os.ReadFile":                        "vxstub_ioutil_ReadFile",
-	"io.ReadAll":                         "vxstub_ioutil_ReadAll",
+	"os.Open":                            "vxstub_os_Open",
 	"log.Fatalf":                         "vxstub_log_Fatalf",
+	"log.Fatal":                          "vxstub_log_Fatal",
+	"log.Fatalln":                        "vxstub_log_Fatalln",
+	"log.Printf":                         "vxstub_log_Printf",
+	"log.Print":                          "vxstub_log_Print",
+	"log.Println":                        "vxstub_log_Println",
 	"fmt.Printf":                         "vxstub_fmt_Printf",
+	"fmt.Print":                          "vxstub_fmt_Print",
+	"fmt.Println":                        "vxstub_fmt_Println",
+	"fmt.Fprintf":                        "vxstub_fmt_Fprintf",
+	"fmt.Fprint":                         "vxstub_fmt_Fprint",
+	"fmt.Fprintln":                       "vxstub_fmt_Fprintln",
+	"os.Exit":                            "vxstub_os_Exit",
+}
+
+// envRedirectsAny: redirected whoever the caller is (the standard library reads os.Stdin through these when
+// the command hands the handle to io.ReadAll, a bufio.Reader, a json.Decoder, io.Copy ...).
+var envRedirectsAny = map[string]string{
+	"(*os.File).Read":        "vxstub_file_Read",
+	"(*os.File).Write":       "vxstub_file_Write",
+	"(*os.File).WriteString": "vxstub_file_WriteString",
+	"(*os.File).WriteTo":     "vxstub_file_WriteTo",
+	"(*os.File).ReadFrom":    "vxstub_file_ReadFrom",
+	"(*os.File).Close":       "vxstub_file_Close",
 }
 
 func (i *Interp) registerEnv() {}
@@ -29,6 +50,14 @@ func (i *Interp) installRedirects(h *ssa.Package) {
 				i.redirect = map[string]*ssa.Function{}
 			}
 			i.redirect[callee] = f
+		}
+	}
+	for callee, stub := range envRedirectsAny {
+		if f := h.Func(stub); f != nil {
+			if i.redirectAny == nil {
+				i.redirectAny = map[string]*ssa.Function{}
+			}
+			i.redirectAny[callee] = f
 		}
 	}
 }
